@@ -1,0 +1,130 @@
+//go:build verif
+// +build verif
+
+// Contracts for the amd64 dispatch functions and assembly kernels of gf2p16.
+
+package gf2p16
+
+// specLookup is what the scalar kernels compute per word from a mulTableEntry.
+func specLookup(e *mulTableEntry, w T) T {
+	return e.s0[w&0xff] ^ e.s8[w>>8]
+}
+
+// specNib is what the SSSE3 kernels compute per word from a mulTable64Entry:
+// the xor of one 4-bit-indexed table entry per nibble, low and high result byte separately.
+func specNib(e *mulTable64Entry, w T) T {
+	lo := e.s0Low[w&0xf] ^ e.s4Low[(w>>4)&0xf] ^ e.s8Low[(w>>8)&0xf] ^ e.s12Low[w>>12]
+	hi := e.s0High[w&0xf] ^ e.s4High[(w>>4)&0xf] ^ e.s8High[(w>>8)&0xf] ^ e.s12High[w>>12]
+	return T(lo) | T(hi)<<8
+}
+
+//@ frozen mulTable64
+
+// Rows of the nibble tables built by platformInit (closed facts, evaluated for every constant).
+//@ lemma tables64Row
+//@   props C09 C11 C07 C12
+//@   kind exhaust
+//@   forall c T
+//@   ensures forallv(w, T, specNib(&mulTable64[c], w) == specGfmul(c, w))
+
+//@ lemma tablesLookupRow
+//@   props C09 C11 C07 C12
+//@   kind exhaust
+//@   forall c T
+//@   ensures forallv(w, T, specLookup(&mulTable[c], w) == specGfmul(c, w))
+
+// ---- assembly kernels: contracts assumed here, checked by the assembly front end -------
+
+//@ func mulByteSliceLEUnsafe
+//@   props C09
+//@   assume-contract assembly: obligations generated from the disassembly (asm front end)
+//@   requires len(in) >= 2 && len(in) % 2 == 0 && len(out) >= len(in)
+//@   requires sameSlice(in, out[:len(in)]) || disjoint(in, out)
+//@   modifies out[:len(in)]
+//@   ensures forall(k, 0, mathint(len(in))/2, specWord(out, k) == specLookup(cEntry, old(specWord(in, k))))
+
+//@ func mulAndAddByteSliceLEUnsafe
+//@   props C09
+//@   assume-contract assembly: obligations generated from the disassembly (asm front end)
+//@   requires len(in) >= 2 && len(in) % 2 == 0 && len(out) >= len(in)
+//@   requires disjoint(in, out)
+//@   modifies out[:len(in)]
+//@   ensures forall(k, 0, mathint(len(in))/2, specWord(out, k) == old(specWord(out, k)) ^ specLookup(cEntry, old(specWord(in, k))))
+
+//@ func mulSliceSSSE3Unsafe
+//@   props C09
+//@   assume-contract assembly: obligations generated from the disassembly (asm front end)
+//@   requires len(in) >= 32 && len(out) >= len(in)
+//@   requires sameSlice(in, out[:len(in)]) || disjoint(in, out)
+//@   modifies out[:mathint(len(in))/32*32]
+//@   ensures forall(k, 0, mathint(len(in))/32*16, specWord(out, k) == specNib(cEntry, old(specWord(in, k))))
+
+//@ func mulAndAddSliceSSSE3Unsafe
+//@   props C09
+//@   assume-contract assembly: obligations generated from the disassembly (asm front end)
+//@   requires len(in) >= 32 && len(out) >= len(in)
+//@   requires disjoint(in, out)
+//@   modifies out[:mathint(len(in))/32*32]
+//@   ensures forall(k, 0, mathint(len(in))/32*16, specWord(out, k) == old(specWord(out, k)) ^ specNib(cEntry, old(specWord(in, k))))
+
+//@ lemma blockSplit
+//@   props C09 C07 C12
+//@   mode int
+//@   forall n int
+//@   requires n >= 0 && n % 2 == 0
+//@   ensures mathint(n - n % 32) % 2 == 0 && mathint(n - n % 32) == mathint(n) / 32 * 32 && mathint(n - n % 32) / 2 == mathint(n) / 32 * 16 && n - n % 32 >= 0 && n - n % 32 <= n && mathint(n - (n - n % 32)) % 2 == 0 && mathint(n) / 2 == mathint(n - n % 32) / 2 + mathint(n - (n - n % 32)) / 2
+
+// ---- Go dispatch: SIMD blocks first, scalar tail; every CPU path ---------------------
+
+// blockBytes: the number of bytes handled by the SIMD kernel on this path.
+//@ pred blockBytes(useSSSE3, n) = ite(useSSSE3 && n >= 32, mathint(n - n % 32), mathint(0))
+
+//@ func mulByteSliceLE
+//@   props C09 C07 C12
+//@   opaque
+//@   opaque-fn specNib specLookup
+//@   panics len(out) != len(in)
+//@   requires len(in) % 2 == 0
+//@   requires sameSlice(in, out) || disjoint(in, out)
+//@   modifies out[:]
+//@   ensures forall(k, 0, blockBytes(useSSSE3, len(in))/2, specWord(out, k) == specNib(&mulTable64[c], old(specWord(in, k))))
+//@   ensures forall(k, blockBytes(useSSSE3, len(in))/2, mathint(len(in))/2, specWord(out, k) == specLookup(&mulTable[c], old(specWord(in, k))))
+//@   ensures forall(k, 0, mathint(len(in))/2, specWord(out, k) == specGfmul(c, old(specWord(in, k))))
+//@   uses tables64Row(c)
+//@   uses tablesLookupRow(c)
+//@   uses blockSplit(len(in))
+//@   inst k - mathint(len(in) - len(in) % 32) / 2
+
+//@ func mulAndAddByteSliceLE
+//@   props C09 C07 C12
+//@   opaque
+//@   opaque-fn specNib specLookup
+//@   panics len(out) != len(in)
+//@   requires len(in) % 2 == 0
+//@   requires disjoint(in, out)
+//@   modifies out[:]
+//@   ensures forall(k, 0, blockBytes(useSSSE3, len(in))/2, specWord(out, k) == old(specWord(out, k)) ^ specNib(&mulTable64[c], old(specWord(in, k))))
+//@   ensures forall(k, blockBytes(useSSSE3, len(in))/2, mathint(len(in))/2, specWord(out, k) == old(specWord(out, k)) ^ specLookup(&mulTable[c], old(specWord(in, k))))
+//@   ensures forall(k, 0, mathint(len(in))/2, specWord(out, k) == old(specWord(out, k)) ^ specGfmul(c, old(specWord(in, k))))
+//@   uses tables64Row(c)
+//@   uses tablesLookupRow(c)
+//@   uses blockSplit(len(in))
+//@   inst k - mathint(len(in) - len(in) % 32) / 2
+
+//@ func MulByteSliceLE
+//@   props C09 C07 C12
+//@   opaque
+//@   panics len(out) != len(in)
+//@   requires len(in) % 2 == 0
+//@   requires sameSlice(in, out) || disjoint(in, out)
+//@   modifies out[:]
+//@   ensures forall(k, 0, mathint(len(in))/2, specWord(out, k) == specGfmul(c, old(specWord(in, k))))
+
+//@ func MulAndAddByteSliceLE
+//@   props C09 C07 C12
+//@   opaque
+//@   panics len(out) != len(in)
+//@   requires len(in) % 2 == 0
+//@   requires disjoint(in, out)
+//@   modifies out[:]
+//@   ensures forall(k, 0, mathint(len(in))/2, specWord(out, k) == old(specWord(out, k)) ^ specGfmul(c, old(specWord(in, k))))
